@@ -32,9 +32,19 @@ func vpHostileIDs(tag string) []string {
 // from a known or unknown sender): the real handleIncomingRPC and everything it reaches neither panics nor blocks.
 func vpH_C12_handlers_gs() {
 	vpOpt("unwind", 8)
-	w := vpNewWorld(vpWorldCfg{P: 2, params: vpSmallParams(), scoring: true, direct: true, doPX: true})
+	w := vpNewWorld(vpWorldCfg{P: 2, params: vpGossipParams(), scoring: true, direct: true, doPX: true})
 	ps, gs := w.n.ps, w.n.gs
 	ps.mySubs[vpT0] = map[*Subscription]struct{}{}
+	// arbitrary per-heartbeat flood-protection counters of the first peer (small caps so that "exactly at the cap" is inside)
+	if c := vpInt("peerhave_pre", 0, 3); c > 0 {
+		gs.peerhave["p0"] = c
+	}
+	if c := vpInt("iasked_pre", 0, 4); c > 0 {
+		gs.iasked["p0"] = c
+	}
+	if c := vpInt("peerdontwant_pre", 0, 3); c > 0 {
+		gs.peerdontwant["p0"] = c
+	}
 	cached := vpMkMsg("A", "7", vpT0)
 	cached.ReceivedFrom = "self"
 	gs.mcache.Put(cached)
@@ -86,8 +96,30 @@ func vpH_C12_handlers_gs() {
 		}
 		if vpBool("extensions") {
 			ctl.Extensions = &pb.ControlExtensions{}
+			if vpBool("ext_partial_set") {
+				ctl.Extensions.PartialMessages = vpB(vpBool("ext_partial"))
+			}
+			if vpBool("ext_test_set") {
+				ctl.Extensions.TestExtension = vpB(vpBool("ext_test"))
+			}
 		}
 		rpc.Control = ctl
+	}
+	// extension payloads, whether or not anybody negotiated the extension
+	if vpBool("has_partial") {
+		rpc.Partial = &pb.PartialMessagesExtension{TopicID: vpHostileStr("partial_topic")}
+		if vpBool("partial_group") {
+			rpc.Partial.GroupID = []byte("g")
+		}
+		if vpBool("partial_meta") {
+			rpc.Partial.PartsMetadata = []byte{1}
+		}
+		if vpBool("partial_body") {
+			rpc.Partial.PartialMessage = []byte("x")
+		}
+	}
+	if vpBool("has_test_extension") {
+		rpc.TestExtension = &pb.TestExtension{}
 	}
 	var panicked bool
 	blocked := vpBlocks(func() { panicked = vpPanics(func() { ps.handleIncomingRPC(rpc) }) })
